@@ -23,7 +23,7 @@ Proof. exact unrepaired_save_refuted. Qed.
 Print Assumptions C16_unrepaired_save_refuted.
 
 Theorem C16_number_of_executions_covered :
-  length (all_runs (prog_save_chk_to_mpq true 3) (fs_of true true true)) = 48 /\
-  length (all_runs (prog_add_audio_files_to_mpq true 3 3) (fs_of true true true)) = 98.
+  length (all_runs (prog_save_chk_to_mpq true 3) (fs_of true true true)) = 53 /\
+  length (all_runs (prog_add_audio_files_to_mpq true 3 3) (fs_of true true true)) = 108.
 Proof. exact execution_counts. Qed.
 Print Assumptions C16_number_of_executions_covered.
